@@ -74,10 +74,11 @@ func (v *VUrl) validate(value string) *VUrl {
 		urlQuery = decUrl[queryIndex+1:]
 	}
 	if urlQuery == "" {
-		return v
+		return v.validMiss(nil)
 	}
 
 	var key, val string
+	seen := make(map[string]struct{}, len(v.ruleObj))
 	for _, query := range strings.Split(urlQuery, "&") {
 		key = ""
 		val = ""
@@ -94,6 +95,7 @@ func (v *VUrl) validate(value string) *VUrl {
 		if validNames == "" {
 			continue
 		}
+		seen[key] = struct{}{}
 		// 根据验证内容进行验证
 		for _, validName := range ValidNamesSplit(validNames) {
 			if validName == "" {
@@ -138,6 +140,17 @@ func (v *VUrl) validate(value string) *VUrl {
 			}
 			fn(v.errBuf, validName, "", key, reflect.ValueOf(val))
 		}
+	}
+	return v.validMiss(seen)
+}
+
+// validMiss 规则里有但 url 参数里不存在的 key
+func (v *VUrl) validMiss(seen map[string]struct{}) *VUrl {
+	for key, validNames := range v.ruleObj {
+		if _, ok := seen[key]; ok || key == "" {
+			continue
+		}
+		missRequired(v.errBuf, key, validNames)
 	}
 	return v
 }
